@@ -208,13 +208,27 @@ func checkSzxTable(e *Env) map[int64]int64 {
 		return want
 	}
 	okTable := true
+	next := int64(0)
 	for _, el := range lit.Elts {
 		kv, ok := el.(*ast.KeyValueExpr)
 		if !ok {
-			okTable = false
+			// positional element of an array/slice literal: index = previous index + 1
+			v := pk.TypesInfo.Types[el].Value
+			if v == nil {
+				okTable = false
+				continue
+			}
+			vi, _ := constant.Int64Val(v)
+			got[next] = vi
+			next++
 			continue
 		}
 		k, v := pk.TypesInfo.Types[kv.Key].Value, pk.TypesInfo.Types[kv.Value].Value
+		if k != nil {
+			if ki, exact := constant.Int64Val(k); exact {
+				next = ki + 1
+			}
+		}
 		if k == nil || v == nil {
 			okTable = false
 			continue
@@ -245,6 +259,18 @@ func checkSzxTable(e *Env) map[int64]int64 {
 		ok := false
 		why := "Size does not return szxToSize[s]"
 		for _, ret := range core.ReturnsOf(f) {
+			// array/slice form: szxToSize[s] behind an index-in-range test
+			if ld, isLd := core.RetVal(ret, 0).(*ssa.UnOp); isLd && ld.Op == token.MUL {
+				if ia, isIA := ld.X.(*ssa.IndexAddr); isIA {
+					base := ia.X
+					if bl, isBl := base.(*ssa.UnOp); isBl {
+						base = bl.X
+					}
+					if g, isG := base.(*ssa.Global); isG && g.Name() == "szxToSize" && core.Unwrap(ia.Index) == ssa.Value(f.Params[0]) {
+						ok = true
+					}
+				}
+			}
 			ex, isEx := core.RetVal(ret, 0).(*ssa.Extract)
 			if !isEx {
 				continue
